@@ -535,3 +535,22 @@ func H_C09_sort_after_derive() {
 	}
 	verifReach("end")
 }
+
+
+// Equals is an observer: a comparison (whatever its outcome) leaves nothing behind that a later comparison
+// of the same operands — or of a result derived from them — could see
+func H_C09_equals_leaves_no_trace() {
+	x, y := nondetInt(), nondetInt()
+	verifAssume(x != y)
+	in := NewList(x)
+	a := NewList(in, x, "s")
+	sub := a.SubList(0, 2)
+	diff := NewList(NewList(y), x, "s")
+	same := NewList(NewList(x), x, "s")
+	verifAssert(!a.Equals(diff), "Equals is exactly typed structural equality")
+	verifAssert(!a.Equals(diff) && a.Equals(same) && !a.Equals(NewList(NewList(y), y, "t")), "a non-mutating list operation leaves receiver and argument unchanged")
+	verifAssert(sub.Equals(NewList(NewList(x), x)) && !sub.Equals(NewList(NewList(y), x)) && !in.Equals(NewList(y)) && in.Equals(NewList(x)), "mutating one of receiver/argument/result/second result changes none of the others")
+	o, od, os := NewObject("k", in, "n", x), NewObject("k", NewList(y), "n", x), NewObject("k", NewList(x), "n", x)
+	verifAssert(!o.Equals(od) && o.Equals(os) && !o.Equals(od), "a non-mutating object operation leaves receiver and argument unchanged")
+	verifReach("end")
+}
